@@ -352,7 +352,9 @@ def validate_trace(module, cfg, trace_path, *, timeout=600, xmx="3g", tag=None, 
     elif res.violated:
         # invariant violation stops TLC before the postcondition: use the error trace length
         ms = re.findall(r"^State (\d+):", res.stdout, flags=re.M)
-        v.matched = (int(ms[-1]) - 1) if ms else 0
+        # state 1 is the initial state, state k+1 the one after record k (1-based): the violating record has
+        # 0-based index N-2, which is what `matched` (= index of the first bad record) must be
+        v.matched = max(int(ms[-1]) - 2, 0) if ms else 0
         v.total = -1
     else:
         sys.stdout.write("\n".join(res.stdout.splitlines()[-30:]) + "\n")
